@@ -132,22 +132,129 @@ theorem stale_served_at_once (c0 : Cfg) (ops : List Op) (now : Int) (key : Key) 
     · rw [hopt] at hor; cases hor
     · rw [hst] at hor; cases hor
 
-/-- **At most one refresh per cached answer.**  Along any history whose clock never goes backwards,
-no entry object (`eid`) ever makes two lookups return `needRefresh = true`: after the first, every
-further stale hit of that entry is served with `needRefresh = false` (`stale_served_at_once`) until
-the refresh replaces the entry (a new insert = a new object) or its end-of-refresh clean-up evicts it. -/
-theorem single_refresh_per_entry (c0 : Cfg) (t0 : Int) (ops : List Op) (hm : Mono t0 ops) :
-    (refreshIds (run (start c0) ops).2).Nodup := by
-  have := (run_IdInv ops t0 [] (start c0) hm (IdInv_empty t0)).nd
-  simpa using this
+/-- **At most one refresh in flight per cached answer.**  `latchedAfter (start c0) [] ops` is the
+list of entry objects with a refresh in flight after the history `ops`: a lookup that returns
+`needRefresh = true` adds the entry it answered from, the clean-up that ends a refresh of a key
+releases the entry stored under that key (`latchStep`).  Whatever the history, a lookup asks for a
+refresh of an entry only if that entry has none in flight — every other stale hit of it is still
+answered at once, with `needRefresh = false` (`stale_served_at_once`). -/
+theorem refresh_only_when_none_in_flight (c0 : Cfg) (ops : List Op) (now : Int) (key : Key) (ign : Bool) (sv : Served)
+    (h : (step (run (start c0) ops).1 (.lookup now key ign)).2 = .hit sv) (hr : sv.refresh = true) :
+    sv.stale = true ∧ sv.eid ∉ latchedAfter (start c0) [] ops := by
+  obtain ⟨e0, hf, hl⟩ := step_lookup_hit h
+  have hm := find_mem hf
+  have hS : OkS key e0 := run_OkS ops (start c0) (AllE_empty _) _ hm
+  have hI := run_IdInv ops [] (start c0) IdInv_empty
+  obtain ⟨_, hid, _, _, hfresh, hstale⟩ := served_bounds hS hl
+  cases hst : sv.stale with
+  | false => have := (hfresh hst).2; rw [hr] at this; cases this
+  | true =>
+    refine ⟨rfl, ?_⟩
+    have h4 := (hstale hst).2.2.2
+    rw [hr] at h4
+    have hflag : e0.refreshing = false := by cases hb : e0.refreshing <;> simp [hb] at h4 ⊢
+    rw [hid]
+    exact hI.fresh _ hm hflag
 
--- non-vacuity: three stale lookups of one entry, exactly one refresh request (entry object 0)
+/-- consequence: the list of refreshes in flight never holds an entry twice -/
+theorem in_flight_refreshes_distinct (c0 : Cfg) (ops : List Op) : (latchedAfter (start c0) [] ops).Nodup :=
+  (run_IdInv ops [] (start c0) IdInv_empty).nd
+
+-- non-vacuity: three stale lookups of one entry: one refresh request; its clean-up releases the
+-- latch without evicting, the next stale lookup may start the next refresh.
 example :
+    let c := Cfg.normalize true 60 0 []
     let ops := [Op.insert 0 ['k'] ['a'] 1 1 7 1 0 false,
       Op.lookup (2 * SEC) ['k'] false, Op.lookup (2 * SEC) ['k'] false, Op.lookup (3 * SEC) ['k'] false]
-    refreshIds (run (start (Cfg.normalize true 60 0 [])) ops).2 = [0] ∧
-    (run (start (Cfg.normalize true 60 0 [])) ops).2.map LRes.view =
-      [none, some (true, 1, 7, true), some (true, 1, 7, false), some (true, 1, 7, false)] ∧ Mono 0 ops := by
-  refine ⟨by decide, by decide, by simp [Mono, Op.time, SEC]⟩
+    (run (start c) ops).2.map LRes.view =
+      [none, some (true, 1, 7, true), some (true, 1, 7, false), some (true, 1, 7, false)] ∧
+    latchedAfter (start c) [] ops = [0] ∧
+    latchedAfter (start c) [] (ops ++ [Op.refreshDone (4 * SEC) ['k']]) = [] ∧
+    (step (run (start c) (ops ++ [Op.refreshDone (4 * SEC) ['k']])).1 (.lookup (5 * SEC) ['k'] false)).2.view =
+      some (true, 1, 7, true) := by
+  decide
+
+/-! ### fixed TTL -/
+
+/-- **Fixed TTL, case-insensitively.**  If the last `fixed_domain_ttl` line for a name (compared
+without regard to ASCII case) says `f`, then every insert whose question name is that name in any
+spelling gets `f` as its deadline TTL, whatever TTL the upstream reply carried. -/
+theorem fixed_ttl_applies (opt : Bool) (stale mx : Int) (pre post : List (List Char × Int)) (name : List Char)
+    (f : Int) (hpost : ∀ q ∈ post, q.1.map lowerAscii ≠ name.map lowerAscii)
+    (host : List Char) (hhost : host.map lowerAscii = name.map lowerAscii) (ttl : Int) :
+    effTtl (Cfg.normalize opt stale mx (pre ++ (name, f) :: post)) host ttl = f := by
+  simp only [effTtl, Cfg.normalize, hhost, lookupFixed_parseFixed pre post name f hpost]
+
+/-- … and a name without a line keeps the TTL of the reply. -/
+theorem fixed_ttl_absent (opt : Bool) (stale mx : Int) (raw : List (List Char × Int)) (host : List Char)
+    (h : ∀ q ∈ raw, q.1.map lowerAscii ≠ host.map lowerAscii) (ttl : Int) :
+    effTtl (Cfg.normalize opt stale mx raw) host ttl = ttl := by
+  simp only [effTtl, Cfg.normalize, lookupFixed_parseFixed_none raw _ h]
+
+-- non-vacuity: `Ddns.org: 10` in the configuration, question asked as `DDNS.ORG.`, reply TTL 3600:
+-- served before +10 s, gone after (optimistic caching off).
+example :
+    let c := Cfg.normalize false 60 0 [(['D', 'd', 'n', 's', '.', 'o', 'r', 'g'], 10)]
+    let ops := [Op.insert 0 ['k'] ['D', 'D', 'N', 'S', '.', 'O', 'R', 'G', '.'] 1 3600 7 1 0 false]
+    (step (run (start c) ops).1 (.lookup (9 * SEC) ['k'] false)).2.view = some (false, 10, 7, false) ∧
+    (step (run (start c) ops).1 (.lookup (11 * SEC) ['k'] false)).2.view = none := by
+  decide
+
+/-! ### keys -/
+
+/-- **Names are case-insensitive.**  Two spellings that differ only in ASCII case give the same key
+for every query type and route. -/
+theorem key_case_insensitive (n1 n2 : List Char) (h : n1.map lowerAscii = n2.map lowerAscii) (q : Nat) (r : Route) :
+    responseKey n1 q r = responseKey n2 q r := by
+  unfold responseKey cacheKey
+  rw [canon_case_insensitive n1 n2 h]
+
+/-- **Keys separate names, types and upstream scopes.**  For question names without a `|` character,
+two requests share a response-cache key only if their names are equal up to ASCII case and the
+trailing dot, their query types are equal and they were routed the same way. -/
+theorem key_injective (n1 n2 : List Char) (q1 q2 : Nat) (r1 r2 : Route) (hn1 : '|' ∉ n1) (hn2 : '|' ∉ n2)
+    (h : responseKey n1 q1 r1 = responseKey n2 q2 r2) : canon n1 = canon n2 ∧ q1 = q2 ∧ r1 = r2 := by
+  unfold responseKey at h
+  obtain ⟨h1, h2, h3⟩ := scopedKey_inj hn1 hn2 h
+  exact ⟨h1, h2, scopeOf_inj h3⟩
+
+/-- the family key used by reject-routing (`RemoveDnsRespCacheFamily`) is the unscoped key -/
+theorem base_of_response_key (n : List Char) (q : Nat) (r : Route) (hn : '|' ∉ n) :
+    baseKey (responseKey n q r) = cacheKey n q :=
+  baseKey_scopedKey q _ hn
+
+example : responseKey ['A', '.', 'b'] 28 (.upstream ['u']) = "a.b.28|upstream@u".toList ∧
+    responseKey ['a', '.', 'B', '.'] 28 (.upstream ['u']) = "a.b.28|upstream@u".toList ∧
+    responseKey ['a', '.', 'b'] 1 .none = "a.b.1".toList := by
+  refine ⟨by decide, by decide, by decide⟩
+
+/-! ### janitor and LRU -/
+
+/-- **Janitor, time step.**  Whatever the history, after a janitor run at `now` nothing new is in the
+cache, and when time-based eviction applies (a stale window is configured, or neither a window nor a
+size limit) every surviving entry is still inside its deadline (+ stale window when optimistic). -/
+theorem janitor_time_step (c0 : Cfg) (ops : List Op) (now : Int) (choice : List Key) :
+    let w := (run (start c0) ops).1
+    ∀ p ∈ (w.st.janitor w.cfg now choice).entries,
+      p ∈ w.st.entries ∧ (useTimeEviction w.cfg = true → effDeadline w.cfg p.2 > now) := by
+  intro w p hp
+  refine ⟨janitor_subset _ _ _ _ p hp, ?_⟩
+  have : p ∈ timeEvict w.cfg now w.st.entries := by
+    simp only [State.janitor] at hp
+    unfold lruEvict at hp
+    split at hp
+    · exact (List.mem_filter.mp hp).1
+    · exact hp
+  exact ((timeEvict_spec _ _ _ _).mp this).2
+
+/-- **Janitor keeps what it may keep.**  An entry that the time step keeps is evicted only when a size
+limit is set and exceeded. -/
+theorem janitor_keeps (c0 : Cfg) (ops : List Op) (now : Int) (choice : List Key) :
+    let w := (run (start c0) ops).1
+    ¬ (w.cfg.maxSize > 0 ∧ ((timeEvict w.cfg now w.st.entries).length : Int) > w.cfg.maxSize) →
+    (w.st.janitor w.cfg now choice).entries = timeEvict w.cfg now w.st.entries := by
+  intro w h
+  simp only [State.janitor]
+  exact lruEvict_noop _ _ _ h
 
 end DaeVerif.C08.Props
